@@ -205,7 +205,7 @@ class Builtins(BuiltinCalls, ContainerCalls):
         if n.sym is not None and s.fixed is not None and len(s.fixed) == 1:
             lo = int(n.rng.lo) if n.rng is not None and n.rng.lo > -INF else 0
             hi = n.rng.hi if n.rng is not None else INF
-            length = Length(("num", n.sym), max(lo, 0), hi)
+            length = Length(n.sym[1] if n.sym[0] == "lenterm" else ("num", n.sym), max(lo, 0), hi)
             seq = Seq(length, s.fixed[0], "k", None, None, frozenset({"repeat"}), "list")
         else:
             seq = Seq(Length(None, 0, INF), elem, "k", None, None, frozenset({"reordered"}), "list")
